@@ -72,7 +72,7 @@ REQUIRED_COUNTERS = (['w:' + w for w in WRAPPERS] + ['leaf:' + l for l in LEAVES
                         'unused_votes_later_stage_awards', 'unused_votes_3plus_later_stage_awards',
                         'unused_votes_prev_gains_later_stage_awards', 'unused_votes_depth2_later_stage_awards',
                         # generator audit (GENERATOR_CHECKLIST.md): candidate objects, clashes, numbers, seat values
-                        'names:int0', 'names:empty0', 'names:person', 'name_clash',
+                        'names:int0', 'names:empty0', 'names:person', 'name_clash', 'exact_arithmetic_in_wrapper',
                         'num:fraction_votes', 'num:fraction_votes_big_denominator', 'num:votes_1e18_or_more',
                         'num:near_tie_at_magnitude', 'num:zero_vote_parties_2plus',
                         'prev_gains_for_party_absent_from_votes',
@@ -1882,6 +1882,18 @@ def gen_directed(rng):
                       {'k': 'remapp', 'e': {'k': 'byparty', 'overall': ha, 'alloc': None}}]},
                    'app': {'ev': leaf('ha', divisor='sainte_lague')}},
                   {'votes': nested, 'n': str(rng.randint(4, 9))}, ['directed', 'seatspec:app_dist'])
+    # exact arithmetic inside the wrappers: after the Hare quota 10/3 (k times) is taken off A, A and B hold exactly
+    # the same votes and tie for the last seat of the next round; any rounding separates them
+    kk = rng.choice([1, 3, 10 ** 18 + 7])
+    yield mk_case({'k': 'unused', 'rounds': [leaf('qd', quota='hare', accept_equal=True, on_overaward='error'), ha],
+                   'quotas': rng.choice([None, ['hare']]), 'depth': 1},
+                  {'votes': {'dict': [[a, num_str(Fraction(16, 3) * kk)], [b, num_str(2 * kk)], [c, num_str(Fraction(8, 3) * kk)]]},
+                   'n': '3'}, ['directed', 'exact_arithmetic_in_wrapper', 'seatspec:int'])
+    # apportionment by a distributor on FRACTIONAL constituency totals: 7/2 against 3 for one seat
+    yield mk_case({'k': 'bycon', 'e': ha, 'app': {'ev': leaf('ha', divisor='d_hondt')}},
+                  {'votes': {'dict': [[CON0, {'dict': [[a, num_str(Fraction(5, 2) * kk)], [b, num_str(kk)]]}],
+                                      [CON0 + 1, {'dict': [[a, num_str(2 * kk)], [b, num_str(kk)]]}]]},
+                   'n': '1'}, ['directed', 'exact_arithmetic_in_wrapper', 'seatspec:app_dist'])
     yield mk_case({'k': 'bycon', 'e': {'k': 'fixed', 'e': ha, 'n': '2'}, 'app': None},
                   {'votes': nested, 'n': '3'}, ['directed', 'seatspec:int'])
     yield mk_case({'k': 'unused', 'rounds': [ha, leaf('ha', divisor='sainte_lague')], 'quotas': ['droop'], 'depth': 1},
